@@ -38,7 +38,7 @@ func (f *fakePush) Recv() (*proto.ShardAssignments, error) {
 	return m, nil
 }
 func (*fakePush) SendAndClose(*proto.CoordinationShardAssignmentsResponse) error { return nil }
-func (f *fakePush) Context() context.Context                                   { return f.ctx }
+func (f *fakePush) Context() context.Context                                     { return f.ctx }
 
 type fakeClient struct {
 	ctx context.Context
